@@ -1,9 +1,13 @@
 package main
 
 import (
+	"bytes"
 	"fmt"
 	"go/ast"
+	"go/printer"
 	"go/token"
+	"regexp"
+	"strconv"
 	"strings"
 )
 
@@ -408,5 +412,189 @@ func relmodShape(repo string) (string, error) {
 	fmt.Fprintf(&sb, "Definition endpoint_calls : list string := %s.\n", coqList(epCalls, true))
 	fmt.Fprintf(&sb, "Definition event_calls : list string := %s.\n", coqList(evCalls, true))
 	fmt.Fprintf(&sb, "Definition unsorted_map_ranges : list string := %s.\n", coqList(unsorted, true))
+	pay, err := payloadShape(repo)
+	if err != nil {
+		return "", err
+	}
+	sb.WriteString(pay)
+	return sb.String(), nil
+}
+
+// ---- pkg/arrai/relmod/relmod.go: the return-payload reader and the annotation value conversion ----
+//
+//	payload_grammar     how the PRIMITIVE rule of the embedded wbnf grammar is written (PrimChoice: an ordered choice of
+//	                    string literals, PrimWord: one regular expression (?:a|b|...)\b) and its alternatives in order;
+//	                    whether parseReturnPayload sorts the modifiers (ModsSorted) or hands over the order of arr.ai's
+//	                    set export (ModsSetOrder); whether a name with several values is refused with an error
+//	                    (DupRefused) or runs into the failing type assertion of ToStringInterfaceMap (DupPanics)
+//	payload_rules       the grammar text without the PRIMITIVE rule, blanks collapsed
+//	payload_tx          the arr.ai function applied to the parse tree, blanks collapsed
+//	payload_status_default  the status parseReturnPayload starts from
+//	relmod_fn_text      go/printer text of unpackType, attrToValue, tags, annos, parseFieldType
+var wsRE = regexp.MustCompile(`\s+`)
+
+func coqString(s string) string { return "\"" + strings.ReplaceAll(s, "\"", "\"\"") + "\"" }
+
+func rawStringAssigned(fd *ast.FuncDecl, name string) (string, bool) {
+	out, found := "", false
+	ast.Inspect(fd.Body, func(n ast.Node) bool {
+		as, ok := n.(*ast.AssignStmt)
+		if !ok || len(as.Lhs) != 1 || len(as.Rhs) != 1 || exprStr(as.Lhs[0]) != name {
+			return true
+		}
+		if bl, ok := as.Rhs[0].(*ast.BasicLit); ok && bl.Kind == token.STRING {
+			if v, err := strconv.Unquote(bl.Value); err == nil {
+				out, found = v, true
+			}
+		}
+		return true
+	})
+	return out, found
+}
+
+var primRuleRE = regexp.MustCompile(`(?s)PRIMITIVE\s*->\s*(.*?);`)
+var primChoiceRE = regexp.MustCompile(`^"[^"\\|]+"(\s*\|\s*"[^"\\|]+")*$`)
+var primWordRE = regexp.MustCompile(`^/\{\(\?:([A-Za-z0-9_]+(\|[A-Za-z0-9_]+)*)\)\\b\}$`)
+
+func payloadShape(repo string) (string, error) {
+	gf, err := parseGo(repo, "pkg/arrai/relmod/relmod.go")
+	if err != nil {
+		return "", err
+	}
+	funcs := map[string]*ast.FuncDecl{}
+	for _, fd := range funcDecls(gf.file) {
+		if fd.Recv == nil {
+			funcs[fd.Name.Name] = fd
+		}
+	}
+	bp := funcs["buildPayloadParser"]
+	prp := funcs["parseReturnPayload"]
+	if bp == nil || prp == nil {
+		return "", fmt.Errorf("buildPayloadParser / parseReturnPayload not found")
+	}
+	parse, ok1 := rawStringAssigned(bp, "parse")
+	tx, ok2 := rawStringAssigned(bp, "tx")
+	if !ok1 || !ok2 {
+		return "", fmt.Errorf("buildPayloadParser: the grammar / tx string literals were not found")
+	}
+	primMode, prims := "PrimUnknown", []string{}
+	rules := parse
+	if m := primRuleRE.FindStringSubmatchIndex(parse); m != nil {
+		body := strings.TrimSpace(parse[m[2]:m[3]])
+		rules = parse[:m[2]] + "<PRIMITIVE>" + parse[m[3]:]
+		if primChoiceRE.MatchString(body) {
+			primMode = "PrimChoice"
+			for _, alt := range strings.Split(body, "|") {
+				prims = append(prims, strings.Trim(strings.TrimSpace(alt), "\""))
+			}
+		} else if w := primWordRE.FindStringSubmatch(body); w != nil {
+			primMode = "PrimWord"
+			prims = strings.Split(w[1], "|")
+		}
+	}
+	rules = strings.TrimSpace(wsRE.ReplaceAllString(rules, " "))
+	tx = strings.TrimSpace(wsRE.ReplaceAllString(tx, " "))
+
+	// parseReturnPayload: StatementReturnAttrs{Modifier: X, Nvp: Y}
+	modsMode, dupMode, statusDefault := "ModsUnknown", "DupUnknown", ""
+	assigned := map[string]ast.Expr{}
+	sorted := map[string]bool{}
+	guarded := false
+	ast.Inspect(prp.Body, func(n ast.Node) bool {
+		switch x := n.(type) {
+		case *ast.AssignStmt:
+			if len(x.Lhs) == 1 && len(x.Rhs) == 1 {
+				if _, seen := assigned[exprStr(x.Lhs[0])]; !seen {
+					assigned[exprStr(x.Lhs[0])] = x.Rhs[0]
+				}
+			}
+		case *ast.ExprStmt:
+			if c, ok := isCall(x.X, "sort.Strings", 1); ok {
+				sorted[exprStr(c.Args[0])] = true
+			}
+		case *ast.IfStmt:
+			// if _, ok := v.(rel.Value); !ok { return ..., <error> }
+			if as, ok := x.Init.(*ast.AssignStmt); ok && len(as.Rhs) == 1 {
+				if ta, ok := as.Rhs[0].(*ast.TypeAssertExpr); ok && ta.Type != nil && exprStr(ta.Type) == "rel.Value" {
+					if u, ok := x.Cond.(*ast.UnaryExpr); ok && u.Op == token.NOT && len(x.Body.List) == 1 {
+						if r, ok := x.Body.List[0].(*ast.ReturnStmt); ok && len(r.Results) == 2 && exprStr(r.Results[1]) != "nil" {
+							guarded = true
+						}
+					}
+				}
+			}
+		}
+		return true
+	})
+	if bl, ok := assigned["status"].(*ast.BasicLit); ok && bl.Kind == token.STRING {
+		statusDefault, _ = strconv.Unquote(bl.Value)
+	}
+	exportOf := func(e ast.Expr, key string) bool { // t.MustGet("<key>").Export(ctx)
+		c, ok := e.(*ast.CallExpr)
+		if !ok {
+			return false
+		}
+		se, ok := c.Fun.(*ast.SelectorExpr)
+		if !ok || se.Sel.Name != "Export" {
+			return false
+		}
+		g, ok := se.X.(*ast.CallExpr)
+		return ok && exprStr(g.Fun) == "t.MustGet" && len(g.Args) == 1 && exprStr(g.Args[0]) == strconv.Quote(key)
+	}
+	ast.Inspect(prp.Body, func(n ast.Node) bool {
+		cl, ok := n.(*ast.CompositeLit)
+		if !ok || exprStr(cl.Type) != "StatementReturnAttrs" {
+			return true
+		}
+		for _, el := range cl.Elts {
+			kv, ok := el.(*ast.KeyValueExpr)
+			if !ok {
+				continue
+			}
+			switch exprStr(kv.Key) {
+			case "Modifier":
+				if c, ok := isCall(kv.Value, "arrai.ToStrings", 1); ok && exportOf(c.Args[0], "modifier") {
+					modsMode = "ModsSetOrder"
+				} else if id, ok := kv.Value.(*ast.Ident); ok {
+					if c, ok := isCall(assigned[id.Name], "arrai.ToStrings", 1); ok && exportOf(c.Args[0], "modifier") && sorted[id.Name] {
+						modsMode = "ModsSorted"
+					}
+				}
+			case "Nvp":
+				if c, ok := isCall(kv.Value, "arrai.ToStringInterfaceMap", 1); ok {
+					if exportOf(c.Args[0], "nvp") {
+						dupMode = "DupPanics"
+					} else if id, ok := c.Args[0].(*ast.Ident); ok && exportOf(assigned[id.Name], "nvp") && guarded {
+						dupMode = "DupRefused"
+					}
+				}
+			}
+		}
+		return true
+	})
+
+	var sb strings.Builder
+	q := make([]string, len(prims))
+	for i, p := range prims {
+		q[i] = coqString(p)
+	}
+	fmt.Fprintf(&sb, "Definition payload_grammar : grammar := {| g_prim_mode := %s; g_prims := map bytes [%s]; g_mods := %s; g_dup := %s |}.\n",
+		primMode, strings.Join(q, "; "), modsMode, dupMode)
+	fmt.Fprintf(&sb, "Definition payload_rules : string := %s.\n", coqString(rules))
+	fmt.Fprintf(&sb, "Definition payload_tx : string := %s.\n", coqString(tx))
+	fmt.Fprintf(&sb, "Definition payload_status_default : string := %s.\n", coqString(statusDefault))
+	var texts []string
+	for _, fn := range []string{"unpackType", "attrToValue", "tags", "annos", "parseFieldType"} {
+		txt := "<missing>"
+		if fd := funcs[fn]; fd != nil {
+			var buf bytes.Buffer
+			fd.Doc = nil
+			if err := printer.Fprint(&buf, gf.fset, fd); err == nil {
+				txt = wsRE.ReplaceAllString(buf.String(), " ")
+			}
+		}
+		texts = append(texts, fmt.Sprintf("(%s, %s)", coqString(fn), coqString(txt)))
+	}
+	fmt.Fprintf(&sb, "Definition relmod_fn_text : list (string * string) := [%s].\n", strings.Join(texts, ";\n  "))
 	return sb.String(), nil
 }
